@@ -70,4 +70,18 @@ Proof. intros p c Hp Hc. split; [apply headingClockwise_spec | apply areOpposite
 Theorem C06_location_codes :
   location_codes = [("Bottom"%string, 3%Z); ("Inside"%string, 4%Z); ("Left"%string, 0%Z); ("Right"%string, 2%Z); ("Top"%string, 1%Z)].
 Proof. exact location_codes_are. Qed.
+
+(* getNextLocation (both the polygon and the polyline driver call it): the decisions cut out of the source *)
+Theorem C06_nextLocation_opposite_first : forall x y b l r t,
+  ((x >= r)%Z -> gen_next_Left x y b l r t = LRight) /\ ((y >= b)%Z -> gen_next_Top x y b l r t = LBottom) /\
+  ((x <= l)%Z -> gen_next_Right x y b l r t = LLeft) /\ ((y <= t)%Z -> gen_next_Bottom x y b l r t = LTop).
+Proof. exact next_opposite_first. Qed.
+Theorem C06_nextLocation_stay : forall x y b l r t,
+  (gen_stay_Left x y b l r t = true <-> (x <= l)%Z) /\ (gen_stay_Top x y b l r t = true <-> (y <= t)%Z) /\
+  (gen_stay_Right x y b l r t = true <-> (x >= r)%Z) /\ (gen_stay_Bottom x y b l r t = true <-> (y >= b)%Z).
+Proof. exact stay_spec. Qed.
+Definition C06_nextLocation_adjacent_or_inside := next_adjacent_or_inside.
+Definition C06_nextLocation_from_inside := next_Inside_spec.
+Definition C06_nextLocation_is_another_location := next_is_another_location.
 Print Assumptions C06_getLocation.
+Print Assumptions C06_nextLocation_opposite_first.
